@@ -1,4 +1,4 @@
 SPECIFICATION TraceSpec
-INVARIANTS NoPanic HarnessRange C02_FailOnlyFee
+INVARIANTS NoPanic HarnessRange C02_FailOnlyFee C02_TwinEqual
 POSTCONDITION Accepted
 CHECK_DEADLOCK FALSE
